@@ -478,6 +478,17 @@ func (e *denv) opDisruptUnsynced() bool {
 	if !lo.ContainsBy(e.claims(), func(nc *v1.NodeClaim) bool { return nc.Status.ProviderID == "" }) || !e.cluster.HasSynced() {
 		return false
 	}
+	for _, nc := range e.claims() { // every launched, live claim has drifted: there would be work to do
+		if nc.Status.ProviderID != "" && nc.DeletionTimestamp.IsZero() && !nc.StatusConditions().Get(v1.ConditionTypeDrifted).IsTrue() {
+			nc.StatusConditions().SetTrue(v1.ConditionTypeDrifted)
+			if err := e.cl.Status().Update(e.ctx, nc); err != nil {
+				panic(err)
+			}
+			fresh := &v1.NodeClaim{}
+			_ = e.cl.Get(e.ctx, client.ObjectKeyFromObject(nc), fresh)
+			e.opInfUpd(fresh)
+		}
+	}
 	_, _ = e.disrC.Reconcile(e.ctx)
 	e.adopt()
 	e.step("DSkip", "DisruptionReconcile(an unlaunched NodeClaim exists)")
@@ -577,8 +588,11 @@ func runD(c *kit.Ctx, r *kit.Rand, scripted int) {
 	if r.Chance(1, 8) {
 		limit0 = math.MaxInt64
 	}
-	if scripted > 0 {
+	if scripted == 1 {
 		limit0 = 3
+	}
+	if scripted == 2 {
+		limit0 = 4
 	}
 	e.limit = limit0
 	budget := kit.Pick(r, []string{"100%", "100%", "100%", "1", "0"})
@@ -599,6 +613,14 @@ func runD(c *kit.Ctx, r *kit.Rand, scripted int) {
 		e.opProv(2, 0)
 		e.opDisrupt(1)
 		e.opProv(3, 0)
+	} else if scripted == 2 {
+		// headroom, drifted launched nodes and one NodeClaim that has not launched: the disruption controller must wait
+		e.opProv(2, 0)
+		e.launchAll()
+		e.opProv(3, 0)
+		if !e.opDisruptUnsynced() {
+			panic("harness: scripted unsynced-disruption history did not apply")
+		}
 	} else {
 		n := r.Range(3, 8)
 		for i := 0; i < n; i++ {
@@ -684,6 +706,7 @@ func partD(c *kit.Ctx) int {
 	}
 	dLast = time.Now()
 	runD(c, c.Rand.Fork(), 1)
+	runD(c, c.Rand.Fork(), 2)
 	for i := 0; i < n; i++ {
 		runD(c, c.Rand.Fork(), 0)
 	}
